@@ -371,7 +371,9 @@ def run(res, replay=None):
                          "statement": "every read returns the reference bytes; after close the independent reader finds the reference content; e2fsck -fn exit 0"}
     res.cov["rule"] = "6 configurations (extent / block-mapped / inline, 1k-4k blocks); two files interleaved; writes, reads, truncations and punches at block, 12-block (first indirect) and 60-byte (inline) boundaries, holes, zero data, flush and close/reopen in between; non-trivial = at least 5 operations"
     def sig(recipe, problems):
-        if "inline" in recipe["config"] and all("SZ 2133571494" in p for p in problems):
+        # set_size on an inline-data file: either the call fails after changing i_size, or (when the new size is a
+        # multiple of the block size) it "succeeds" and the file claims a size its inline area cannot hold
+        if "inline" in recipe["config"] and any((m or "").startswith("Z ") for _, m in recipe.get("all_ops", [])):
             return "c09:inline-set-size-no-block"
         return "c09:" + hashlib.sha256(json.dumps(recipe.get("ops", [])).encode()).hexdigest()[:12]
     known = {k["signature"] for k in e2v.known_findings() if k["property"] == "C09" and k.get("status") == "known"}
